@@ -129,11 +129,22 @@ fn norm_type(t: &str) -> String {
 }
 
 fn norm_type1(t: &str) -> String {
-    if let Some(rest) = t.strip_prefix("forall A: Dim. ") {
-        if !rest.contains(|c| "[<,:;".contains(c)) && !rest.contains("forall") {
-            let toks: Vec<&str> = rest.split(|c| c == ' ' || c == '(' || c == ')').collect();
-            if toks.iter().filter(|x| **x == "A").count() == 1 && !rest.contains("A^") && !rest.contains("A²") && !rest.contains("A³") {
-                // `A` as a factor in the numerator or denominator with exponent ±1
+    let mut rest = t;
+    let mut vars: Vec<&str> = Vec::new();
+    while let Some(r) = rest.strip_prefix("forall ") {
+        match r.find(": Dim. ") {
+            Some(i) if !r[..i].contains(' ') => {
+                vars.push(&r[..i]);
+                rest = &r[i + 7..];
+            }
+            _ => return t.to_string(),
+        }
+    }
+    if !vars.is_empty() && !rest.contains(|c| "[<,:;".contains(c)) && !rest.contains("forall") {
+        let toks: Vec<&str> = rest.split(|c| c == ' ' || c == '(' || c == ')').collect();
+        for v in &vars {
+            // the variable as a bare factor (numerator or denominator, exponent ±1) absorbs all other factors
+            if toks.iter().filter(|x| *x == v).count() == 1 && !toks.iter().any(|x| x.starts_with(v) && x.len() > v.len() && !x.chars().nth(v.len()).map(|c| c.is_alphanumeric()).unwrap_or(true)) {
                 return "forall A: Dim. A".to_string();
             }
         }
@@ -674,21 +685,39 @@ impl Harness {
             self.out.count(if whole { "scan_whole_token" } else { "scan_other" });
         }
         // oracle: the literal "<escaped s>" evaluates to the string s, and its echo is the same literal
-        let lit = format!("\"{}\"", escaped);
+        self.out.count("string_cases");
+        if let Some((kind, _)) = self.string_oracle(s) {
+            // shrink to a minimal failing string of the same kind
+            let chars: Vec<char> = s.chars().collect();
+            let small: String = shrink_seq(&chars, |c| {
+                let t: String = c.iter().collect();
+                self.string_oracle(&t).map(|(k, _)| k == kind).unwrap_or(false)
+            })
+            .into_iter()
+            .collect();
+            let what = self.string_oracle(&small).map(|(_, w)| w).unwrap_or_default();
+            self.out.oracle_fail(&format!("{}|{}", kind, esc_field(&small)), &format!("str\t{}", esc_field(&small)), &what);
+        }
+        self.out.case(&format!("str {}", hook::cps(s)), s.chars().any(|c| "\\\"{}\n\r\t\0".contains(c)));
+    }
+
+    /// Some((kind, description)) if the literal of `s` does not round-trip
+    fn string_oracle(&self, s: &str) -> Option<(&'static str, String)> {
+        let lit = format!("\"{}\"", hook::escape_numbat_string(s));
         let mut c = self.base.clone();
         let want = format!("s:{}", hook::cps(s));
-        self.out.count("string_cases");
         match run_one(&mut c, &lit) {
             Ok(ro) => {
                 if ro.value.as_deref() != Some(&want) {
-                    self.out.oracle_fail(&format!("string-roundtrip|{}", esc_field(s)), &format!("str\t{}", esc_field(s)), &format!("literal {} evaluates to {:?}, expected the string with code points {}", lit, ro.value, hook::cps(s)));
+                    Some(("string-roundtrip", format!("literal {} evaluates to {:?}, expected the string with code points {}", lit, ro.value, hook::cps(s))))
                 } else if ro.echo.join("\n") != lit && !s.is_empty() {
-                    self.out.oracle_fail(&format!("string-echo|{}", esc_field(s)), &format!("str\t{}", esc_field(s)), &format!("literal {} is echoed as {}", lit, ro.echo.join("\n")));
+                    Some(("string-echo", format!("literal {} is echoed as {}", lit, ro.echo.join("\n"))))
+                } else {
+                    None
                 }
             }
-            Err((cl, msg)) => self.out.oracle_fail(&format!("string-rejected|{}", esc_field(s)), &format!("str\t{}", esc_field(s)), &format!("literal {} is rejected ({}: {})", lit, cl, msg.lines().next().unwrap_or(""))),
+            Err((cl, msg)) => Some(("string-rejected", format!("literal {} is rejected ({}: {})", lit, cl, msg.lines().next().unwrap_or("")))),
         }
-        self.out.case(&format!("str {}", hook::cps(s)), s.chars().any(|c| "\\\"{}\n\r\t\0".contains(c)));
     }
 
     fn replay_line(&mut self, l: &str) {
